@@ -414,6 +414,14 @@ Theorem C10_rename_pav : forall f, injective f -> forall votes n,
   ares_equiv (ren_ares f (pav votes n)) (pav (renap f votes) n).
 Proof. intros f Hf votes n. exact (pav_rename f Hf votes n). Qed.
 
+(* "f : C -> C injective" is no restriction with respect to "injective on the candidates present": a function injective on a
+   finite set S agrees on S with a globally injective one (and renaming an input only applies f to the candidates present) *)
+Theorem C10_rename_injective_extension : forall (f : C -> C) (S : list C),
+  (forall a b, In a S -> In b S -> f a = f b -> a = b) -> exists g, injective g /\ forall c, In c S -> g c = f c.
+Proof.
+  intros f S H. exists (extend f S). split; [intros a b; exact (extend_injective f S H a b)|exact (extend_agrees f S)].
+Qed.
+
 (* ---- non-vacuity: a renaming that REVERSES the order of the names 1..10 *)
 Definition rev10 (c : C) : C := if (c <=? 10)%positive then (11 - c)%positive else c.
 Lemma rev10_injective : injective rev10.
@@ -490,3 +498,4 @@ Print Assumptions C10_rename_pav_on.
 Print Assumptions C10_pav_iteration_order.
 Print Assumptions C10_rename_pav.
 Print Assumptions C10_rename_pav_exact_refuted.
+Print Assumptions C10_rename_injective_extension.
